@@ -25,6 +25,14 @@ theorem C24_stream_inside (lines : List (List Char)) (l r : Loc) (lb cb le ce lb
   subst el er
   exact ⟨rfl, rfl, (C24_concat_inside lines _ _ _ _ _ _ _ _ hl hr ho).2⟩
 
+/-- the same for every pair of known locations (Line / LineRange / Range in any combination): ordered on lines, the join is inside -/
+theorem C24_concat_inside_any (lines : List (List Char)) (l r : Loc)
+    (hl : inside lines l = true) (hr : inside lines r = true) (ho : orderedAny l r = true) : inside lines (concat l r) = true := by
+  cases l <;> cases r <;>
+    simp only [inside, orderedAny, ordered, concat, Loc.lnBegin, Loc.lnEnd, Loc.colBegin, Loc.colEnd, Bool.and_eq_true, Bool.or_eq_true,
+      decide_eq_true_eq] at * <;>
+    first | omega | (simp at *) | (simp only [inside, Bool.and_eq_true, Bool.or_eq_true, decide_eq_true_eq]; omega)
+
 example : inside (linesOf "x = 1\ny = 2".toList) (.range 1 0 1 1) = true ∧ inside (linesOf "x = 1\ny = 2".toList) (.range 2 4 2 5) = true
     ∧ ordered (.range 1 0 1 1) (.range 2 4 2 5) = true := by decide
 
